@@ -10,7 +10,7 @@ rules) and is exercised on every input and output."""
 import os
 import re
 
-from .. import common, dumps, lexc, progs
+from .. import common, dumps, lexc, listops, progs
 from . import lex_common as lx, render_common as rc
 
 LEVEL = "proof"
@@ -18,7 +18,10 @@ ASSUME = ["Coq kernel; extraction; driver glue; hooks",
           "tokenizer and middle passes are covered by the contracts K_lossless/K_tok/K_space evaluated on every run, not by theorems",
           "LexC is a specification of the C family only (C, C++, Objective-C); the other six languages are judged by re-tokenising the output with uncrustify's own "
           "tokenizer and comparing chunk texts (cannot see a tokenizer defect that is the same on both sides)",
-          "'>>' is compared as two '>' (template closers); digraph spellings are compared as written"]
+          "'>>' is compared as two '>' (template closers); digraph spellings are compared as written",
+          "Model/ChunkList.v mirrors ChunkListManager and Chunk::MoveAfter/Swap/SwapLines/CopyAndAdd/Delete; tied by running random operation sequences on real Chunk "
+          "objects (hook UNC_VERIF_LISTOPS). That the passes call these operations inside the contract of the theorems (arguments are linked chunks; Swap not with the "
+          "first chunk unless neighbours) is not proved"]
 
 
 DIGRAPHS = {"<:", ":>", "<%", "%>", "%:", "%:%:"}
@@ -234,10 +237,18 @@ def run(rep, build, tier, seed):
     rep.cov["input_distribution"] = {"cases": len(cases), "exit_status": {str(k): v for k, v in stats["rc"].items()},
                                      "languages": {L: sum(1 for c in cases if c.lang == L) for L in sorted(set(c.lang for c in cases))}}
     rep.sample({"config_head": (cases[1].cfg_text or "")[:200], "input_head": cases[1].data[:200].decode("latin1")})
+    # Model/ChunkList.v <-> ListManager.h / chunk.cpp: operation sequences on real Chunk objects (hook UNC_VERIF_LISTOPS)
+    n_cmp, ldiff, lstats = listops.correspond(rep, r, 400 if tier == "quick" else 6000)
+    rep.cov["input_distribution"]["listops"] = lstats
+    rep.cov["traces_validated_against_impl"] = rep.cov.get("traces_validated_against_impl", 0) + n_cmp
+    if ldiff:
+        corr = list(corr or []) + ["Model/ChunkList.v <-> ListManager.h/chunk.cpp: " + d for d in ldiff[:3]]
     return rc.finish(rep, build, "C02", corr, "correspondence Model/Render.v <-> output.cpp (emitted code points)",
                      "Theorems of Properties_C02.v re-checked by make; %d runs: LexC(input) vs LexC(output) token streams with directive structure (C family), "
                      "uncrustify's own tokenizer on the output (other languages), contracts K_lossless and K_tok on the dumps, Render correspondence." % len(cases), ASSUME)
 
 
 def replay(rp, build):
+    if rp.get("kind") == "listops":
+        return listops.replay(rp)
     return lx.replay_with(rp, judge)
